@@ -90,6 +90,13 @@ pub fn minimise(sc: &Scenario, fail: &Fail) -> (Scenario, Fail) {
                     }
                 }
             }
+            if let Step::Map { local, nanos } = best.steps[i].clone() {
+                if nanos != 0 {
+                    let mut c = best.clone();
+                    c.steps[i] = Step::Map { local, nanos: 0 };
+                    attempt!(c);
+                }
+            }
             if let Step::Goto { utc, nanos } = best.steps[i].clone() {
                 if nanos != 0 {
                     let mut c = best.clone();
